@@ -154,7 +154,7 @@ func main() {
 		if os.Getenv("DESIGN") != "" {
 			cfg = "ExecTraceDesign.cfg"
 		}
-		mv := execfam.ValidateModel([]*execfam.Program{&p}, traces, cfg)
+		mv := execfam.ValidateModel([]*execfam.Program{&p}, traces, cfg, time.Now().Add(10*time.Minute))
 		fmt.Printf("model: accepted %d rejected %v states %d wall %v runs %d err %v\n", mv.Accepted, mv.Rejected, mv.States, mv.Wall, mv.Runs, mv.Err)
 		return
 	case "dbg-exec":
